@@ -74,7 +74,7 @@ def check(case, out):
             if case["intparam"] and lp.denominator == 1:
                 lp = int(lp)
         else:
-            lp = lib.conv_knot(u, num)
+            lp = lib.conv_param(u, num)
         lparams.append(lp)
     refvals = [oracle.ceval(ref, oracle.frac(lp)) for lp in lparams]
 
@@ -124,7 +124,7 @@ def check(case, out):
             for lp, val, rv in zip(lparams, vals, refvals):
                 compare(val, rv, f"seq u={lp}")
     # (c) outside
-    uo = case["outside"] if exact else lib.conv_knot(case["outside"], num)
+    uo = case["outside"] if exact else lib.conv_param(case["outside"], num)
     for arg, label in ((uo, "alone"), ([lparams[0], uo, lparams[-1]], "in-sequence")):
         try:
             val = curve(arg)
@@ -143,10 +143,23 @@ def check(case, out):
         out.fail("operand-modified", klass, "evaluation changed the curve state")
 
 
+@st.composite
+def int_cases(draw):
+    """Integer knots (int type): the library's divisions produce floats, compared to 1e-9."""
+    p = draw(st.integers(0, 4))
+    a = draw(st.integers(-3, 3))
+    L = draw(st.integers(1, 6))
+    c = draw(gen.curves(nums=("int",), interval=(F(a), F(a + L)), grid=L, degree=p, kmax=4,
+                        values=st.integers(-12, 12).map(F)))
+    return {"curve": c, "outside": draw(gen.outside_params(c["U"])), "seqtype": "tuple", "intparam": True}
+
+
 FACETS = [
     Facet("exact", lambda tier: cases(("frac", "frac", "fracint"),
                                       pmax=5, kmax=5 if tier == "thorough" else 4),
           check, quick=1200, thorough=30000, rule="exact Fraction profile; exact equality + no float"),
     Facet("float", lambda tier: cases(("float", "npfloat"), pmax=5, kmax=4),
           check, quick=600, thorough=12000, rule="float/np.float64 profile; 1e-9 relative"),
+    Facet("int-knots", lambda tier: int_cases(), check, quick=300, thorough=5000,
+          rule="int knots and int points (float results), 1e-9 relative"),
 ]
